@@ -339,7 +339,11 @@ fn gen_list(rng: &mut Rng, k: &Knobs, m: KeyMod, depth: usize, field: &str) -> Y
     Yaml::Sequence(out)
 }
 
-const ODD_FIELDS: [&str; 8] = ["Key", "KEY", "a b", "a  b", "arr[01]", "a#b", "x_y", "A"];
+// the second half: names that YAML itself would not read as strings (a comment, null, numbers in
+// other notations, booleans) - as field names in a rule they are plain strings
+const ODD_FIELDS: [&str; 20] = [
+    "Key", "KEY", "a b", "a  b", "arr[01]", "a#b", "x_y", "A", "#text", "#attributes", "16", "0x10", "true", "null", "n.16", "n.#text", "1e3", "0o17", "n.null", "n.0x10",
+];
 
 fn gen_field(rng: &mut Rng, k: &Knobs, prefer: Option<&str>) -> String {
     if k.has(F_QUOTING) && rng.chance(1, 6) {
